@@ -313,7 +313,11 @@ func c04(c *report.Check) {
 	if c.Thorough() {
 		bound = 3
 	}
-	sum := e2.Drive(c, []e2.Plan{{Scns: scns, Bound: -1, TotalBound: bound, NShards: 4}}, 0)
+	ns := 6
+	if c.Thorough() {
+		ns = 48
+	}
+	sum := e2.Drive(c, []e2.Plan{{Scns: scns, Bound: -1, TotalBound: bound, NShards: ns}}, 0)
 	for _, v := range sum.Violations {
 		cls := v.Violation
 		if i := strings.Index(cls, ":"); i > 0 {
